@@ -12,6 +12,15 @@
 
   Every operation is one atomic step of the real code (no yield inside, measured on the fake
   socket): which step happens next is observed from the real run; its effect is computed here.
+  The one yield point inside an iteration of `_SendLoop` is `self._socket.write(payload)`: when
+  the peer is slow the greenlet is parked inside the call.  `wbegin` is the part of an iteration
+  up to and including the *issue* of a write call that does not return at once (from then on the
+  peer may see any prefix of the frame: the frame counts as written); `wend` is that call
+  returning.  In between every other step can happen (requests and time-out Tdiscardeds queue
+  up behind the frame, deadline events fire, their callbacks run, peer frames are processed) —
+  only the send loop itself cannot move.  `send` is an iteration whose write returned at once.
+  `quiet` is not a step of the code: it is the harness reporting that nothing is runnable (every
+  spawned callback has run; the send loop is blocked in `queue.get()` or inside `write`).
   The model describes the code *after* the two repairs of fixes/C11-release-only-leased-tags.patch:
   `_ReleaseTag` returns a tag to the pool only if it was in `_tag_map`, and the send loop does
   not write a request that was completed while it was waiting in the send queue.  Import-free.
@@ -49,9 +58,10 @@ structure St where
   tagmap : List (Nat × Nat)
   sendq : List Item
   reqs : List Req
+  writing : Bool             -- the send loop is parked inside `self._socket.write(payload)`
   deriving Repr, DecidableEq, Inhabited
 
-def St.init : St := ⟨Pool.init, [], [], []⟩
+def St.init : St := ⟨Pool.init, [], [], [], false⟩
 
 /-! ### `_tag_map` as an association list -/
 
@@ -101,6 +111,9 @@ inductive Op where
   | process (mtype : Int) (tag : Nat) -- `_ProcessReply` on a frame sent by the peer
   | ping                              -- `_SendPingMessage`
   | reopen                            -- the connection is replaced (fresh sink, fresh pool)
+  | wbegin                            -- an iteration of `_SendLoop` up to a `write` call that blocks
+  | wend                              -- the blocked `write` call returns
+  | quiet                             -- (harness) nothing is runnable
   deriving Repr, DecidableEq, Inhabited
 
 /-- what one step shows -/
@@ -136,7 +149,7 @@ def stepReq (max : Nat) (s : St) (e : EvKind) (popped : Nat) : St × Out :=
   | .tag t p =>
     let rid := s.reqs.length
     ({ pool := p, tagmap := tmSet t rid s.tagmap, sendq := s.sendq ++ [.req rid t],
-       reqs := s.reqs ++ [⟨.tag t, evOf e, false⟩] },
+       reqs := s.reqs ++ [⟨.tag t, evOf e, false⟩], writing := s.writing },
      { assigned := t })
 
 def stepFire (s : St) (rid : Nat) : St × Out :=
@@ -146,7 +159,7 @@ def stepFire (s : St) (rid : Nat) : St × Out :=
     else (s, { res := .badop })
   | none => (s, { res := .badop })
 
-/-- one iteration of `_SendLoop` on the head of the queue:
+/-- one iteration of `_SendLoop` on the head of the queue (the loop is not parked in a write):
     already answered → skipped (repair); `_HandleTimeout`: event signalled → pop the key and
     `_ReleaseTag`, nothing written; event pending → subscribe, write; no event → write. -/
 def stepSend (s : St) : St × Out :=
@@ -222,10 +235,35 @@ def stepProcessKafka (s : St) (t : Nat) : St × Out :=
   | (s', some rid) => ({ s' with reqs := setKey s'.reqs rid .answered }, { delivered := [rid] })
   | (s', none) => (s', {})
 
+/-- a time-out callback is runnable: the event has fired and the one-shot subscription is there -/
+def Req.notifyPending (r : Req) : Bool := r.ev == .fired && r.sub
+
+/-- `wbegin`: the iteration of `stepSend`, when it gets as far as `self._socket.write(payload)`
+    (`_HandleTimeout` has run: the deadline subscription of a request exists *before* the write
+    call is issued) and the call does not return: the loop is parked.  An iteration that writes
+    nothing (frame skipped or dropped) never reaches the call. -/
+def stepWBegin (s : St) : St × Out :=
+  if s.writing then (s, { res := .badop })
+  else if (stepSend s).2.wrote.isEmpty then (s, { res := .badop })
+  else ({ (stepSend s).1 with writing := true }, (stepSend s).2)
+
+/-- `wend`: the parked write call returns; the loop goes back to `queue.get()` -/
+def stepWEnd (s : St) : St × Out :=
+  if s.writing then ({ s with writing := false }, {}) else (s, { res := .badop })
+
+/-- `quiet`: nothing is runnable — the send loop is parked in a write or waits on an empty queue,
+    and no time-out callback is pending -/
+def stepQuiet (s : St) : St × Out :=
+  if (s.writing || s.sendq.isEmpty) && s.reqs.all (fun r => !r.notifyPending) then (s, {})
+  else (s, { res := .badop })
+
 def stepOp (fl : Flavour) (max : Nat) (s : St) : Op → St × Out
   | .req e popped => stepReq max s e popped
   | .fire rid => stepFire s rid
-  | .send => stepSend s
+  | .send => if s.writing then (s, { res := .badop }) else stepSend s
+  | .wbegin => stepWBegin s
+  | .wend => stepWEnd s
+  | .quiet => stepQuiet s
   | .notify rid =>
     match fl with
     | .thriftmux => stepNotify s rid
